@@ -16,6 +16,10 @@ var _ containers.JSONDeserializer = (*List[int])(nil)
 
 // ToJSON outputs the JSON representation of list's elements.
 func (list *List[T]) ToJSON() ([]byte, error) {
+	if list.elements == nil {
+		// a list that never held an element is an empty array, not null
+		return json.Marshal([]T{})
+	}
 	return json.Marshal(list.elements)
 }
 
